@@ -323,6 +323,8 @@ func TestC07(t *testing.T) {
 	defer r.End()
 	core.DFS(r, core.Check[leafCase]{Name: "leaf-pools", Gen: genLeafCase, Exec: execLeaf("C07"), NoJournal: true}, 0)
 	core.DFS(r, core.Check[mixedCase]{Name: "mixed-primitives", Gen: genMixed, Exec: execMixed("C07"), NoJournal: true}, 0)
+	core.DFS(r, core.Check[faceCase]{Name: "values-and-pointers", Gen: genFaces, Exec: execFaces("C07"), NoJournal: true}, 0)
+	core.DFS(r, core.Check[twinCase]{Name: "same-named-types", Gen: genTwins, Exec: execTwins("C07"), NoJournal: true}, 0)
 	core.Rapid(r, core.Check[mapKeysCase]{Name: "map-keys", Gen: genMapKeys, Exec: execMapKeys("C07")}, r.N(1500, 15000))
 	core.Rapid(r, core.Check[poolCase]{Name: "composite-pools", Gen: genPool(false), Exec: execPool("C07")}, r.N(1500, 15000))
 	core.Rapid(r, core.Check[poolCase]{Name: "tight-maximum", Gen: genPool(false), Exec: execTightMaximum}, r.N(600, 6000))
